@@ -8,7 +8,9 @@ w.r.t. test inputs vs finite differences, (f) the CIQ natural-gradient Function,
 (diag, last_dim_is_batch, x2 None / equal / different, requires_grad of either input, trace_mode, shared / ARD / batched lengthscale, sizes incl. kernel batch = d = n):
 values and the gradient of EVERY parameter under every forcing against autograd of the documented formula, (h) BackwardOps.tla: forward -> backward^k through ONE
 graph for every hand-written Function (directly and through the public object): every pass = upstream . dF(x), = the same pass through a fresh graph, context
-untouched; Jacobian rows.  Replay code of (g), (h): checks/c19_multi.py.  Level "other"."""
+untouched; Jacobian rows, (i) WHO REQUIRES GRAD: every non-empty subset of the tensor inputs of every hand-written Function (BackwardOps.tla: BWNeedsOK; via Function.apply and
+via the public object; nat / ciq cells, exact instances), every subset of {x1, x2} in every call cell (KernelCalls.tla: KCWants) and k(x, Z) inside SGPR: each input that requires grad is
+delivered a gradient (None only where the derivative is zero) equal to autograd of the reference / the expectation-parameter gradient.  Replay code of (g), (h): checks/c19_multi.py.  Level "other"."""
 import math
 import os
 import random
@@ -21,6 +23,8 @@ LEVEL = "other"
 PID = "C19"
 NU = {"matern05": 0.5, "matern15": 1.5, "matern25": 2.5}
 CDF_RTOL = 1e-7
+IND_RTOL = {"rbf": 1e-6, "matern25": 1e-6, "matern15": 1e-5}     # SGPR marginal log likelihood: autograd vs 4th-order central differences (h = 1e-3); measured 2e-11 / 4e-11 / 2e-9 over 150 seeds;
+#                          nu = 3/2 has a discontinuous third derivative at r = 0; nu = 1/2 is not differentiable there (not in the lattice)
 CIQ_RTOL = 1e-4            # _NgdInterpTerms solves with linear_operator's linear_cg: mostly 1e-15, but up to 5e-6 on some 3 x 3 systems whatever the tolerance setting
 
 
@@ -41,28 +45,33 @@ KC_BATCH = {"quick": [(0, 0), (2, 0), (3, 0), (2, 2), (3, 3), (0, 2)], "thorough
 KC_DIMS = [1, 2, 3]
 KC_MODES = ["same", "clone", "eqn", "gt", "lt"]
 KC_WRAPS = ["plain", "scale"]
-KC_FORCES = ["none", "x1grad", "x2grad", "trace"]
+KC_FORCES = ["none", "x1grad", "x2grad", "x12grad", "trace"]       # every subset of {x1, x2} requiring grad, and trace_mode
 BW_MAX = 3
 BW_UP = {"quick": ["ones", "randA"], "thorough": ["ones", "randA", "randB", "unit"]}
+# the histories of the cases in which a PROPER / other subset of the inputs requires grad (MachRG = "other")
+BW_MAX_RG = 2
+BW_UP_RG = {"quick": ["randA"], "thorough": ["ones", "randA"]}
+ALL_FNS = ["rbfcov", "materncov", "lncdf", "nat2muvar", "trilnat2muvar", "ngdinterp"]
 
 
 def tset(vals):
     return "{%s}" % ", ".join(tla(list(v)) if isinstance(v, tuple) else tla(v) for v in vals)
 
 
-def write_mc(workdir, name, part, instances=(), inv=(), tier="quick", impure=(), fns=None):
+def write_mc(workdir, name, part, instances=(), inv=(), tier="quick", impure=(), fns=None, machrg="base", shortcut=(), bwmax=BW_MAX, ups=None):
     os.makedirs(workdir, exist_ok=True)
     mod = "MC_Grad_" + name
     with open(os.path.join(workdir, mod + ".tla"), "w") as f:
         f.write("---- MODULE %s ----\nEXTENDS Grad\nInstDef == {%s}\n" % (mod, ",\n  ".join(tla(i) for i in instances)))
         f.write("KCDimsDef == %s\nKCBatchDef == %s\nKCModesDef == %s\nKCWrapsDef == %s\nKCForcesDef == %s\n" % (
             tset(KC_DIMS), tset(KC_BATCH[tier]), tset(KC_MODES), tset(KC_WRAPS), tset(KC_FORCES)))
-        f.write("BWUpDef == %s\nBWImpureDef == %s\n" % (tset(BW_UP[tier]), tset(tuple(i) for i in impure)))
-        f.write("MachFnsDef == %s\n====\n" % tset(fns if fns is not None else ["rbfcov", "materncov", "lncdf", "nat2muvar", "trilnat2muvar", "ngdinterp"]))
+        f.write("BWUpDef == %s\nBWImpureDef == %s\nMachShortcutDef == %s\n" % (tset(ups if ups is not None else BW_UP[tier]), tset(tuple(i) for i in impure), tset(tuple(i) for i in shortcut)))
+        f.write("MachFnsDef == %s\n====\n" % tset(fns if fns is not None else ALL_FNS))
     cfg = os.path.join(workdir, mod + ".cfg")
     tlc.write_cfg(cfg, spec="GSpec", invariants=list(inv),
                   constants={"Part": part, "Instances": "<- InstDef", "KCDims": "<- KCDimsDef", "KCBatch": "<- KCBatchDef", "KCModes": "<- KCModesDef", "KCWraps": "<- KCWrapsDef",
-                             "KCForces": "<- KCForcesDef", "BWMaxBwd": BW_MAX, "BWUpstreams": "<- BWUpDef", "BWImpure": "<- BWImpureDef", "MachFns": "<- MachFnsDef"})
+                             "KCForces": "<- KCForcesDef", "BWMaxBwd": bwmax, "BWUpstreams": "<- BWUpDef", "BWImpure": "<- BWImpureDef", "MachFns": "<- MachFnsDef",
+                             "MachRG": machrg, "MachShortcut": "<- MachShortcutDef"})
     return os.path.join(workdir, mod + ".tla"), cfg
 
 
@@ -79,7 +88,8 @@ def gen_instances(rnd, thorough):
         for i in range(n):
             for j in range(i + 1):
                 GS[i][j] = GS[j][i] = rnd.randint(-2, 2)
-        out.append(dict(kind="nat" if t % 2 == 0 else "tril", Cm=Cm, t1=[rnd.randint(-2, 2) for _ in range(n)], gmu=[rnd.randint(-2, 2) for _ in range(n)], GS=GS))
+        out.append(dict(kind="nat" if t % 2 == 0 else "tril", Cm=Cm, t1=[rnd.randint(-2, 2) for _ in range(n)], gmu=[rnd.randint(-2, 2) for _ in range(n)], GS=GS,
+                        train=("both", "vec", "mat")[(t // 6) % 3]))       # t mod 6 runs over kind x size: every combination gets every training subset
     for t in range(48 if thorough else 16):
         fn = ("rbf", "matern05", "matern15", "matern25")[t % 4]
         out.append(dict(kind="covr", fn=fn, T1=[rnd.randint(0, 3) for _ in range(3)], T2=[rnd.randint(0, 3) for _ in range(2)], l=list(rnd.choice([(1, 1), (3, 2), (2, 1), (1, 2), (5, 2)]))))
@@ -98,7 +108,7 @@ def _worker(item):
     out = []
     for c in item["cases"]:
         from checks import c19_multi as cm
-        fn = dict(cov=run_cov, covr=run_covr, path=run_path, ard=run_path, cdf=run_cdf, nat=run_nat, natx=run_natx, ciq=run_ciq, pred=run_pred, call=cm.run_call, mach=cm.run_mach)[c["kind"]]
+        fn = dict(cov=run_cov, covr=run_covr, path=run_path, ard=run_path, cdf=run_cdf, nat=run_nat, natx=run_natx, ciq=run_ciq, pred=run_pred, ind=run_ind, call=cm.run_call, mach=cm.run_mach)[c["kind"]]
         r = fn(torch, gpytorch, c)
         out.extend(r if isinstance(r, list) else [r])
     return out
@@ -229,6 +239,10 @@ def run_path(torch, gpytorch, c):
     res = dict(key=[c["kind"], cell, forced], ok=True, nontrivial=True, case=c)
     sig = "C19/path/%s/%s-%s%s" % (cell["fam"], cell["comp"], cell["mode"], "-ard" if cell["ard"] else "")
     G = [None]
+    GX = []
+    with torch.no_grad():           # exp(-r) (nu = 1/2) is not differentiable in the inputs at r = 0: those entries carry no weight in the input-gradient pass
+        xx2 = x1 if x2 is None else x2
+        coincident_free = ((x1.unsqueeze(-2) - xx2.unsqueeze(-3)).abs().sum(-1) != 0).to(D) if cell["fam"] == "matern05" else torch.ones((), dtype=D)
 
     def ev(force):
         for s in c05._SPIES:
@@ -241,6 +255,9 @@ def run_path(torch, gpytorch, c):
             Kd = (kernel(a) if x2 is None else kernel(a, x2)).to_dense()
         if G[0] is None:
             G[0] = torch.randn(Kd.shape, generator=g, dtype=D)
+            G.append(torch.randn(Kd.shape, generator=g, dtype=D) * coincident_free)
+        if force == "x1grad":           # the input that requires grad is delivered a gradient too (first pass through the graph)
+            GX.append(torch.autograd.grad((Kd * G[1]).sum(), [a], allow_unused=True, retain_graph=True)[0])
         grads = torch.autograd.grad((Kd * G[0]).sum(), params, allow_unused=True)
         return Kd.detach(), [torch.zeros_like(p) if gr is None else gr for p, gr in zip(params, grads)], any(s.n > 0 for s in c05._SPIES)
     runs = {}
@@ -277,6 +294,17 @@ def run_path(torch, gpytorch, c):
             if not ok:
                 res.update(ok=False, sig=sig + "/grad-vs-formula/" + n.split(".")[-1], detail="%s: %s branch gradient of %s differs from autograd of the documented formula: %s" % (desc, lab, n, why))
                 return res
+    if forced == "x1grad":
+        # x1 requires grad (x2, if given, does not): the gradient delivered for it must exist and be the derivative of the documented formula
+        ax = x1.clone().requires_grad_(True)
+        wantx, = torch.autograd.grad((R.ref_tree(bound, ax, ax if x2 is None else x2) * G[1]).sum(), [ax])
+        if (not GX or GX[0] is None) and float(wantx.abs().max()) > 1e-10:
+            res.update(ok=False, sig=sig + "/input-grad-missing/x1", detail="%s: x1 requires grad and NO gradient (None) is delivered for it; the documented formula has max |d/dx1| = %.3g" % (desc, float(wantx.abs().max())))
+            return res
+        ok, why = core.close(GX[0] if (GX and GX[0] is not None) else torch.zeros_like(wantx), wantx, 1e-7, 1e-10)
+        if not ok:
+            res.update(ok=False, sig=sig + "/input-grad-vs-formula/x1", detail="%s: gradient delivered for x1 differs from autograd of the documented formula: %s" % (desc, why))
+            return res
     if forced:
         ok, why = vclose(runs["fast"][0], runs["forced"][0])
         if not ok:
@@ -401,7 +429,13 @@ def run_nat(torch, gpytorch, c):
     B0 = U(g, -1, 1, *bs, M, M)
     B = 0.5 * (B0 + B0.transpose(-1, -2))
     w = U(g, -1, 1, *bs, M)
-    desc = "%s M=%d batch=%s loss=%s seed=%d" % (cell["dist"], M, bs, cell["loss"], c["seed"])
+    second = "natural_mat" if cell["dist"] == "natural" else "natural_tril_mat"
+    wants = c["exp"]["wants"] if isinstance(c.get("exp"), dict) else ["natural_vec", second]
+    if sorted(wants) != sorted({"both": ["natural_vec", second], "vec": ["natural_vec"], "mat": [second]}[cell.get("train", "both")]):
+        return dict(machinery="C19: Grad.tla lets %s train for train=%s" % (wants, cell.get("train")))
+    if any(v != "u . dF/d input" for v in c["exp"]["delivers"].values()) if isinstance(c.get("exp"), dict) else False:
+        return dict(machinery="C19: Grad.tla does not expect the complete derivative for every input that trains: %s" % c["exp"])
+    desc = "%s M=%d batch=%s loss=%s%s seed=%d" % (cell["dist"], M, bs, cell["loss"], "" if len(wants) == 2 else " only %s requires grad" % wants[0], c["seed"])
     res = dict(key=["nat", cell], ok=True, nontrivial=M >= 2, case=c)
     sig = "C19/%s/%s" % (cell["dist"], cell["loss"])
 
@@ -416,15 +450,21 @@ def run_nat(torch, gpytorch, c):
             vd.natural_vec.data.copy_(t1)
             vd.natural_tril_mat.data.copy_(Cm)
             mat = vd.natural_tril_mat
+        vd.natural_vec.requires_grad_("natural_vec" in wants)            # a parameter that does not train is frozen
+        mat.requires_grad_(second in wants)
         q = vd()
         mean, cov = q.mean, q.covariance_matrix
         _loss(torch, cell["loss"], mean, cov, A, B, w).backward()
-        return mean.detach(), cov.detach(), vd.natural_vec.grad.clone(), mat.grad.clone()
+        return mean.detach(), cov.detach(), None if vd.natural_vec.grad is None else vd.natural_vec.grad.clone(), None if mat.grad is None else mat.grad.clone()
     ok, got = core.guarded(hand)
     if not ok:
         res.update(ok=False, sig=sig + "/raises", detail="%s: %s" % (desc, got))
         return res
     mean, cov, g1, g2 = got
+    for n, gv in (("natural_vec", g1), (second, g2)):
+        if (gv is None) != (n not in wants):
+            res.update(ok=False, sig=sig + "/%s-grad-%s" % (n, "missing" if gv is None else "for-frozen"), detail="%s: %s" % (desc, "no gradient reaches %s although it requires grad" % n if gv is None else "%s is frozen and received a .grad" % n))
+            return res
     prec = Cm @ Cm.transpose(-1, -2) if cell["dist"] == "natural" else Cm.transpose(-1, -2) @ Cm
     S = torch.linalg.inv(prec)
     mu = (S @ t1.unsqueeze(-1)).squeeze(-1)
@@ -437,11 +477,14 @@ def run_nat(torch, gpytorch, c):
     e2 = (S + mu.unsqueeze(-1) @ mu.unsqueeze(-2)).clone().requires_grad_(True)
     r1, r2 = torch.autograd.grad(_loss(torch, cell["loss"], e1, e2 - e1.unsqueeze(-1) @ e1.unsqueeze(-2), A, B, w), (e1, e2))
     r2 = 0.5 * (r2 + r2.transpose(-1, -2))
-    ok, why = core.close(g1, r1, 1e-7, 1e-10)
-    if not ok:
-        res.update(ok=False, sig=sig + "/natural_vec-grad", detail="%s: gradient delivered to natural_vec is not d loss / d eta1 (eta1 = mu): %s" % (desc, why))
-        return res
-    if cell["dist"] == "natural":
+    if g1 is not None:
+        ok, why = core.close(g1, r1, 1e-7, 1e-10)
+        if not ok:
+            res.update(ok=False, sig=sig + "/natural_vec-grad", detail="%s: gradient delivered to natural_vec is not d loss / d eta1 (eta1 = mu): %s" % (desc, why))
+            return res
+    if g2 is None:
+        pass
+    elif cell["dist"] == "natural":
         ok, why = core.close(g2, r2, 1e-7, 1e-10)
         if not ok:
             res.update(ok=False, sig=sig + "/natural_mat-grad", detail="%s: gradient delivered to natural_mat is not d loss / d eta2 (eta2 = Sigma + mu mu^T): %s" % (desc, why))
@@ -465,7 +508,7 @@ def run_natx(torch, gpytorch, c):
     Cm = torch.tensor(inst["Cm"], dtype=D)
     t1, gmu, GS = torch.tensor(inst["t1"], dtype=D), torch.tensor(inst["gmu"], dtype=D), torch.tensor(inst["GS"], dtype=D)
     tril = inst["kind"] == "tril"
-    desc = "%s C=%s natural_vec=%s loss = %s.mu + <%s, Sigma>" % ("tril" if tril else "natural", inst["Cm"], inst["t1"], inst["gmu"], inst["GS"])
+    desc = "%s C=%s natural_vec=%s loss = %s.mu + <%s, Sigma> train=%s" % ("tril" if tril else "natural", inst["Cm"], inst["t1"], inst["gmu"], inst["GS"], inst["train"])
     res = dict(key=["natx", inst], ok=True, nontrivial=M >= 2, case=c)
     sig = "C19/%s/exact" % ("tril" if tril else "natural")
 
@@ -485,16 +528,27 @@ def run_natx(torch, gpytorch, c):
             vd.natural_mat.data.copy_(-0.5 * Cm @ Cm.T)
             p2 = vd.natural_mat
         vd.natural_vec.data.copy_(t1)
+        vd.natural_vec.requires_grad_("vec" in exp["wants"])
+        p2.requires_grad_("mat" in exp["wants"])
         q = vd()
         mean, cov = q.mean, q.covariance_matrix
         ((gmu * mean).sum() + (GS * cov).sum()).backward()
-        return mean.detach(), cov.detach(), vd.natural_vec.grad.clone(), p2.grad.clone()
+        return mean.detach(), cov.detach(), None if vd.natural_vec.grad is None else vd.natural_vec.grad.clone(), None if p2.grad is None else p2.grad.clone()
     ok, got = core.guarded(hand)
     if not ok:
         res.update(ok=False, sig=sig + "/raises", detail="%s: %s" % (desc, got))
         return res
-    checks = [("mean", got[0], vec(exp["mu"])), ("covariance", got[1], mat(exp["S"])), ("natural_vec-grad", got[2], vec(exp["g1"])),
-              ("natural_tril_mat-grad", got[3], mat(exp["gtril"])) if tril else ("natural_mat-grad", got[3], mat(exp["g2"]))]
+    if not exp["wants"]:
+        return dict(machinery="C19: exact instance %s lets nothing train" % inst["id"])
+    for n, gv in (("vec", got[2]), ("mat", got[3])):
+        if n in exp["wants"] and gv is None:
+            res.update(ok=False, sig=sig + "/%s-grad-missing" % ("natural_vec" if n == "vec" else "natural_tril_mat" if tril else "natural_mat"), detail="%s: no gradient reaches the parameter although it requires grad (train=%s)" % (desc, inst["train"]))
+            return res
+    checks = [("mean", got[0], vec(exp["mu"])), ("covariance", got[1], mat(exp["S"]))]
+    if "vec" in exp["wants"]:
+        checks.append(("natural_vec-grad", got[2], vec(exp["g1"])))
+    if "mat" in exp["wants"]:
+        checks.append(("natural_tril_mat-grad", got[3], mat(exp["gtril"])) if tril else ("natural_mat-grad", got[3], mat(exp["g2"])))
     for lab, a, b in checks:
         ok, why = core.close(a, b, 1e-9, 1e-11)
         if not ok:
@@ -518,18 +572,22 @@ def run_ciq(torch, gpytorch, c):
     t1 = U(g, -1, 1, *bs, M)
     it0 = U(g, -1, 1, *bs, M, n)
     gm, gv, gk = U(g, -1, 1, *bs, n), U(g, -1, 1, *bs, n), U(g, 0.5, 1.5, *bs)
-    desc = "M=%d batch=%s seed=%d" % (M, bs, c["seed"])
+    names = ("interp_term", "natural_vec", "natural_mat")
+    wants = [n for n in names if n in cell.get("rg", names)]
+    if isinstance(c.get("exp"), dict) and (sorted(c["exp"]["wants"]) != sorted(wants) or any(v != "u . dF/d input" for v in c["exp"]["delivers"].values())):
+        return dict(machinery="C19: Grad.tla expectation %s does not match rg=%s" % (c["exp"], wants))
+    desc = "M=%d batch=%s requires_grad=%s seed=%d" % (M, bs, wants, c["seed"])
     res = dict(key=["ciq", cell], ok=True, nontrivial=True, case=c)
     sig = "C19/ciq"
 
     def hand():
-        it = it0.clone().requires_grad_(True)
-        nv = t1.clone().requires_grad_(True)
-        nm = (-0.5 * prec).clone().requires_grad_(True)
+        it = it0.clone().requires_grad_("interp_term" in wants)
+        nv = t1.clone().requires_grad_("natural_vec" in wants)
+        nm = (-0.5 * prec).clone().requires_grad_("natural_mat" in wants)
         with gpytorch.settings.cg_tolerance(1e-14), gpytorch.settings.eval_cg_tolerance(1e-14), gpytorch.settings.max_cg_iterations(200):
             mean, var, kl = _NgdInterpTerms.apply(it, nv, nm)
             tot = (gm * mean).sum() + (gv * var).sum() + (gk * kl).sum()
-            grads = torch.autograd.grad(tot, (it, nv, nm))
+            grads = dict(zip(wants, torch.autograd.grad(tot, [t for n, t in zip(names, (it, nv, nm)) if n in wants], allow_unused=True)))
         return mean.detach(), var.detach(), grads
     ok, got = core.guarded(hand)
     if not ok:
@@ -551,7 +609,13 @@ def run_ciq(torch, gpytorch, c):
         return res
     r = torch.autograd.grad((gm * mean).sum() + (gv * var).sum() + (gk * kl).sum(), (it, e1, e2))
     r = (r[0], r[1], 0.5 * (r[2] + r[2].transpose(-1, -2)))
-    for lab, a, b in zip(("interp_term", "natural_vec (d/d eta1)", "natural_mat (d/d eta2)"), got[2], r):
+    for lab, b in zip(("interp_term", "natural_vec (d/d eta1)", "natural_mat (d/d eta2)"), r):
+        if lab.split(" ")[0] not in wants:
+            continue
+        a = got[2][lab.split(" ")[0]]
+        if a is None:
+            res.update(ok=False, sig=sig + "/grad-missing-" + lab.split(" ")[0], detail="%s: no gradient (None) is delivered for %s although it requires grad" % (desc, lab))
+            return res
         ok, why = core.close(a, b, CIQ_RTOL, 1e-9)
         if not ok:
             res.update(ok=False, sig=sig + "/grad-" + lab.split(" ")[0], detail="%s: gradient w.r.t. %s: %s" % (desc, lab, why))
@@ -629,6 +693,80 @@ def run_pred(torch, gpytorch, c):
     return res
 
 
+def run_ind(torch, gpytorch, c):
+    """SGPR: InducingPointKernel evaluates base_kernel(x, Z) (and base_kernel(Z)) with ONLY the inducing points Z requiring grad;
+    d (marginal log likelihood) / d Z against 4th-order central differences of the same objective"""
+    from checks.c05_ref import U
+    D = torch.float64
+    cell = c["cell"]
+    K = gpytorch.kernels
+    g = torch.Generator().manual_seed(c["seed"])
+    n, d, m = 12, 2, 3
+    X = U(g, -1, 1, n, d)
+    y = torch.sin(2.0 * X[:, 0]) + 0.5 * X[:, 1] + 0.1 * torch.randn(n, generator=g, dtype=D)
+    Z0 = torch.tensor([[-0.6, -0.5], [0.5, -0.4], [0.0, 0.6]], dtype=D) + U(g, -0.15, 0.15, m, d)      # well separated: K_ZZ well conditioned, finite differences accurate
+    ard = cell["kern"].endswith("_ard")
+    fam = cell["kern"].split("_")[0]
+    kw = {"ard_num_dims": d} if ard else {}
+    desc = "SGPR over %s%s, d mll / d inducing_points seed=%d" % (cell["kern"], " in ScaleKernel" if cell["wrap"] == "scale" else "", c["seed"])
+    res = dict(key=["ind", cell], ok=True, nontrivial=True, case=c)
+    sig = "C19/ind/%s/%s" % (cell["kern"], cell["wrap"])
+
+    class Mdl(gpytorch.models.ExactGP):
+        def __init__(s_, Z, lik):
+            super().__init__(X, y, lik)
+            s_.mean_module = gpytorch.means.ZeroMean()
+            base = K.RBFKernel(**kw) if fam == "rbf" else K.MaternKernel(nu=NU[fam], **kw)
+            s_.base = base
+            inner = K.ScaleKernel(base) if cell["wrap"] == "scale" else base
+            s_.covar_module = K.InducingPointKernel(inner, inducing_points=Z.clone(), likelihood=lik)
+
+        def forward(s_, x):
+            return gpytorch.distributions.MultivariateNormal(s_.mean_module(x), s_.covar_module(x))
+
+    def mll_of(Z, grad):
+        lik = gpytorch.likelihoods.GaussianLikelihood().to(D)
+        mdl = Mdl(Z, lik).to(D)
+        lik.noise = torch.tensor([0.2], dtype=D)
+        mdl.base.lengthscale = torch.tensor([[0.7, 1.1]] if ard else [[0.8]], dtype=D)
+        if cell["wrap"] == "scale":
+            mdl.covar_module.base_kernel.outputscale = torch.tensor(1.3, dtype=D)
+        mdl.train()
+        lik.train()
+        with gpytorch.settings.cholesky_jitter(double_value=1e-8):
+            val = gpytorch.mlls.ExactMarginalLogLikelihood(lik, mdl)(mdl(X), y)
+            if not grad:
+                return float(val)
+            gz, = torch.autograd.grad(val, [mdl.covar_module.inducing_points], allow_unused=True)
+        return gz
+
+    def hand():
+        gz = mll_of(Z0, True)
+        h = 1e-3
+        fd = torch.zeros_like(Z0)
+        with torch.no_grad():
+            for i in range(m):
+                for k in range(d):
+                    vals = []
+                    for o in (-2, -1, 1, 2):
+                        Zp = Z0.clone()
+                        Zp[i, k] += o * h
+                        vals.append(mll_of(Zp, False))
+                    fd[i, k] = (8 * (vals[2] - vals[1]) - (vals[3] - vals[0])) / (12 * h)
+        return gz, fd
+    ok, got = core.guarded(hand)
+    if not ok:
+        res.update(ok=False, sig=sig + "/raises", detail="%s: %s" % (desc, got))
+        return res
+    if got[0] is None:
+        res.update(ok=False, sig=sig + "/grad-missing", detail="%s: no gradient reaches the inducing points" % desc)
+        return res
+    ok, why = core.close(got[0], got[1], IND_RTOL[fam], 1e-8)
+    if not ok:
+        res.update(ok=False, sig=sig + "/grad", detail="%s: autograd gradient differs from finite differences: %s" % (desc, why))
+    return res
+
+
 # ---------------------------------------------------------------------------------------------
 def _plain(v):
     if isinstance(v, dict):
@@ -650,7 +788,8 @@ def run(ck):
     ck.rule = ("cells = the branch lattice of Grad.tla: covariance Function x nu x coincident points x batch x upstream; every fast cell of the kernel lattice paired with a forcing of the "
                "generic branch; LogNormalCDF grid z = n/20 in [-12, 8] + far tail with the forward/backward masks; natural / tril-natural x size x batch x loss; CIQ; prediction gradients; "
                "call-configuration lattice of KernelCalls.tla (every valid cell x every forcing); every maximal history (<= 3 passes; upstream gradients x grad / accumulate / release, "
-               "Jacobian rows) of the backward machine of BackwardOps.tla x Function x route x input class; "
+               "Jacobian rows) of the backward machine of BackwardOps.tla x Function x route x input class; the same machine (<= 2 passes) x every other non-empty subset of the inputs "
+               "requiring grad (refused calls of the bare covariance Functions included); nat / ciq cells x training subset; every call cell x every subset of {x1, x2} requiring grad; SGPR cells; "
                "exact = rational instances evaluated by TLC; non-trivial = a cell with r = 0 entries / batch / random upstream, a forced pair, every grid point, M >= 2, every call cell, "
                "a history with >= 2 passes")
     ck.assumptions = [
@@ -666,8 +805,14 @@ def run(ck):
         "(e) 1e-6 relative against 4th-order central differences (h = 1e-4), test points distinct from the training points",
         "(g) call-configuration lattice: one seeded instance per cell (two in the thorough tier), lengthscales / outputscales pairwise distinct over batch and dimensions; values 1e-9, "
         "gradients of raw_lengthscale and raw_outputscale 1e-7 against autograd of the documented formula (r = 0 entries constant in every parameter), forcing none vs every other forcing 1e-9; "
-        "the nu = 1/2 exception of (b) applies when x1 equals x2; every library gradient is taken as the SECOND pass through its graph; only hyperparameter gradients are compared "
-        "(gradients w.r.t. inputs that require grad come from plain autograd); which branch ran is observed with a spy on the Function (a mismatch with KernelCalls.tla is MODEL-DRIFT)",
+        "the nu = 1/2 exception of (b) applies when x1 equals x2; every library hyperparameter gradient is taken as the SECOND pass through its graph; the FIRST pass (another random upstream) "
+        "delivers the gradients of the input tensors that require grad, compared at 1e-7 with autograd of the documented formula; which branch ran is observed with a spy on the Function "
+        "(a mismatch with KernelCalls.tla is MODEL-DRIFT)",
+        "(i) requires-grad subsets: a gradient of None is accepted for an input that requires grad exactly when the reference derivative is zero (diag of k(x, x)); exp(-r) (nu = 1/2) is not differentiable "
+        "in the inputs at r = 0: upstream gradients of input-gradient passes carry no weight on coincident entries there; for nu = 3/2, 5/2 the coincident entries are stationary points (reference: safe root); "
+        "the bare covariance Functions may refuse (raise) a call in which x1 or x2 requires grad - a call they accept must deliver the complete derivative to every input; a frozen parameter is "
+        "requires_grad_(False) on the public object and a constant tensor for Function.apply; SGPR: d mll / d inducing points against 4th-order central differences (h = 1e-3) at 1e-6 "
+        "(1e-5 for nu = 3/2), inducing points well separated, nu = 1/2 not in the SGPR lattice (kinks)",
         "(h) backward machine: per pass (i) the delivered vector-Jacobian product against the derivative of the forward at the tolerances of (a), (c), (d), (f), (ii) against the same upstream "
         "through a fresh graph at 1e-12, (iii) saved tensors and tensor attributes of the context bit-identical to their state after the forward, (iv) the upstream tensors untouched; a pass "
         "recovered from an accumulated .grad is granted the rounding of the subtraction; upstream gradients of outputs that are lower triangular by construction are masked to the triangle",
@@ -690,18 +835,40 @@ def run(ck):
     for k, fns in enumerate(mparts):
         mod, cfg = write_mc(wd, "gmachine%d" % k, "gmachine", (), ["GMachineOK"], tier=ck.tier, fns=fns)
         jobs.append(((mod, cfg), dict(name=PID + "/gmachine%d" % k, dump=True, check=False, workers=tw, timeout=1500, coverage=False)))
+    # the same machine with every OTHER non-empty subset of the inputs requiring grad (a frozen parameter, exactly one of two tensors, x1 / x2 of the covariance Functions)
+    rgparts = [["rbfcov", "materncov"], ["nat2muvar", "trilnat2muvar", "ngdinterp"]] if thorough else [ALL_FNS]
+    for k, fns in enumerate(rgparts):
+        mod, cfg = write_mc(wd, "gneeds%d" % k, "gmachine", (), ["GMachineOK"], tier=ck.tier, fns=fns, machrg="other", bwmax=BW_MAX_RG, ups=BW_UP_RG[ck.tier])
+        jobs.append(((mod, cfg), dict(name=PID + "/gneeds%d" % k, dump=True, check=False, workers=tw, timeout=1500, coverage=False)))
+    # vacuity guard of the requires-grad dimension: a backward that skips the chain of an input that needs no gradient (and with it a term of ANOTHER input's
+    # gradient) must be found, and only by a case in which a proper subset of the inputs requires grad
+    short = [("trilnat2muvar", "natural_vec", "natural_tril_mat")]
+    mod, cfg = write_mc(wd, "gshortA", "gmachine", (), ["GMachineNeedsOK"], tier=ck.tier, fns=["trilnat2muvar"], machrg="other", bwmax=1, ups=["randA"], shortcut=short)
+    jobs.append(((mod, cfg), dict(name=PID + "/gshortA", dump=False, check=False, workers=1, timeout=600, coverage=False)))
+    mod, cfg = write_mc(wd, "gshortB", "gmachine", (), ["GMachineNeedsOK"], tier=ck.tier, fns=["trilnat2muvar"], machrg="base", bwmax=1, ups=["randA"], shortcut=short)
+    jobs.append(((mod, cfg), dict(name=PID + "/gshortB", dump=False, check=False, workers=1, timeout=600, coverage=False)))
     # vacuity guard of the histories: a backward that writes to one context entry must be found, and only by a history with two passes
     mod, cfg = write_mc(wd, "gimpure", "gmachine", (), ["GMachineDerivOK"], tier=ck.tier, fns=["lncdf"], impure=[("lncdf", "denominator")])
     jobs.append(((mod, cfg), dict(name=PID + "/gimpure", dump=False, check=False, workers=1, timeout=600, coverage=False)))
-    rs = tlc.run_many(jobs, parallel=3)
+    rs = tlc.run_many(jobs, parallel=4)
     r_imp = rs.pop()
+    r_shB, r_shA = rs.pop(), rs.pop()
+    ck.add_tlc(r_shA, "Grad backward machine, tril-natural backward skipping the Cholesky chain when natural_tril_mat needs no gradient, proper subsets (must violate)")
+    ck.add_tlc(r_shB, "the same with every input requiring grad (must not violate)")
+    import re
+    rg_bad = [sorted(x.strip().strip('"') for x in m_.group(1).split(",")) for m_ in re.finditer(r"violated by the initial state:.*?rg \|-> \{([^}]*)\}", r_shA.stdout or "", re.S)]
+    if not r_shA.violation or r_shA.violation["name"] != "GMachineNeedsOK" or ["natural_vec"] not in rg_bad or r_shB.violation or r_shB.rc != 0:
+        ck.vacuous("the backward machine does not distinguish a backward that short-circuits on needs_input_grad (proper subsets: %r at rg=%r; all inputs: %r)" % (
+            (r_shA.violation or {}).get("name"), rg_bad, (r_shB.violation or {}).get("name")))
+    r_needs = [rs.pop() for _ in rgparts][::-1]
     ck.add_tlc(r_imp, "Grad backward machine with an in-place write on ctx.denominator (must violate)")
     passes = max([len(st.get("out", {}).get("m", {}).get("hist", ())) for _, st in (r_imp.violation or {}).get("trace", [])] or [0])
     if not r_imp.violation or r_imp.violation["name"] != "GMachineDerivOK" or passes < 2:
         ck.vacuous("the backward machine does not distinguish an impure backward (violation %r, passes in the counterexample %d)" % ((r_imp.violation or {}).get("name"), passes))
     n_m = len(mparts)
     r_calls, r_mach = rs[3], rs[4:4 + n_m]
-    for lab, r in zip(("branch lattice", "exact rational instances A", "exact rational instances B", "call-configuration lattice") + tuple("backward machine %d" % k for k in range(n_m)), rs):
+    for lab, r in zip(("branch lattice", "exact rational instances A", "exact rational instances B", "call-configuration lattice") + tuple("backward machine %d" % k for k in range(n_m))
+                      + tuple("backward machine, other subsets of the inputs requiring grad %d" % k for k in range(len(r_needs))), rs + r_needs):
         ck.add_tlc(r, "Grad " + lab)
         if r.violation:
             ck.model_drift("Grad.tla (%s) violates %s" % (lab, r.violation["name"]))
@@ -711,7 +878,7 @@ def run(ck):
     cells = [(_plain(st["c"]), _plain(st["out"])) for st in rs[0].states()]
     cells.sort(key=lambda c: repr(sorted(c[0].items())))
     kinds = collections.Counter(c["kind"] for c, _ in cells)
-    for k in ("cov", "path", "ard", "cdf", "nat", "ciq", "pred"):
+    for k in ("cov", "path", "ard", "cdf", "nat", "ciq", "pred", "ind"):
         if not kinds.get(k):
             ck.vacuous("no %s cells in the branch lattice" % k)
     for b in ("near_zero", "small", "ordinary"):
@@ -732,27 +899,53 @@ def run(ck):
     n_unsound = sum(1 for _, o in calls if not o["sound"])
     if not calls or not n_fast or not n_unsound or not any(c["ldb"] and c["kb"] == c["d"] for c, _ in calls):
         ck.vacuous("call-configuration lattice: %d cells, %d on the fast branch, %d the Function must not see" % (len(calls), n_fast, n_unsound))
+    n_one = sum(1 for c, o in calls for f, w in o["wants"].items() if len(w) == 1 and c["mode"] != "same" and o["paths"]["none"] == "fast")
+    if not n_one or not any(w == ["x1", "x2"] for _, o in calls for w in o["wants"].values()):
+        ck.vacuous("call-configuration lattice: no fast cell evaluated with exactly one of two different input tensors requiring grad / none with both")
     for k, (cell, exp) in enumerate(calls):
         for sd in range(2 if thorough else 1):
             cases.append(dict(kind="call", cell=cell, exp=exp, seed=(ck.seed * 6151 + k) * 4 + sd))
     # ---- backward machine: every maximal history
     n_hist = collections.Counter()
+    n_rg = collections.Counter()
+    rg_seen = collections.defaultdict(set)
     k = 0
-    for r in r_mach:
+    for r, bwmax, other in [(r, BW_MAX, False) for r in r_mach] + [(r, BW_MAX_RG, True) for r in r_needs]:
         for st in r.states():
             m = _plain(st["out"]["m"])
+            needs = _plain(st["out"]["needs"])
+            cell = _plain(st["c"])
+            if needs["refused"] in (True, "True"):
+                if m["phase"] != "refused":
+                    continue                    # the built state of a call the forward refuses
+                k += 1
+                n_rg["refused"] += 1
+                rg_seen[cell["fn"]].add(tuple(cell["rg"]))
+                cases.append(dict(kind="mach", cell=cell, hist=[], refused=True, seed=(ck.seed * 3571 + k) * 2))
+                continue
+            if any(v != "u . dF/d input" for v in needs["grads"].values()) or sorted(needs["grads"]) != sorted(cell["rg"]):
+                raise core.Machinery("C19: the unchanged model does not deliver the complete derivative to every input that requires grad: %s %s" % (cell, needs))
             hist = m["hist"] if isinstance(m["hist"], list) else []
-            if not hist or (m["phase"] == "recorded" and m["alive"] in (True, "True") and len(hist) < BW_MAX):
+            if not hist or (m["phase"] == "recorded" and m["alive"] in (True, "True") and len(hist) < bwmax):
                 continue
             if any(v not in (0, "0") for h in hist for v in h["saw"].values()):
                 raise core.Machinery("C19: a history of the unchanged model reads a modified context")
-            cell = _plain(st["c"])
             k += 1
-            n_hist[cell["fn"]] += 1
+            if other:
+                n_rg["histories"] += 1
+                n_rg["histories_" + needs["route"]] += 1
+                rg_seen[cell["fn"]].add(tuple(cell["rg"]))
+            else:
+                n_hist[cell["fn"]] += 1
             cases.append(dict(kind="mach", cell=cell, hist=[dict(u=h["u"], how=h["how"]) for h in hist], seed=(ck.seed * 3571 + k) * 2))
-    for fn in ("rbfcov", "materncov", "lncdf", "nat2muvar", "trilnat2muvar", "ngdinterp"):
+    for fn in ALL_FNS:
         if not n_hist[fn]:
             ck.vacuous("backward machine: no history for %s" % fn)
+        n_sub = {"lncdf": 0, "nat2muvar": 2, "trilnat2muvar": 2}.get(fn, 6)
+        if len(rg_seen[fn]) != n_sub:
+            ck.vacuous("backward machine: %d other subsets of the inputs of %s requiring grad, expected %d" % (len(rg_seen[fn]), fn, n_sub))
+    if not n_rg["refused"] or not n_rg["histories_autograd"] or not n_rg["histories_function"]:
+        ck.vacuous("backward machine, other subsets: %r" % dict(n_rg))
     seeds = 8 if thorough else 1
     pts = sorted((c["zn"], o) for c, o in cells if c["kind"] == "cdf")
     for i in range(0, len(pts), 20):
@@ -774,6 +967,8 @@ def run(ck):
     ck.section("lattice", **{k + "_cells": v for k, v in kinds.items()})
     ck.section("calls", cells=len(calls), default_branch_fast=n_fast, configurations_the_function_must_not_see=n_unsound,
                evaluations_incl_forcings=sum(len(o["paths"]) for _, o in calls))
+    ck.section("requires_grad", other_subsets={fn: sorted("+".join(t) for t in v) for fn, v in rg_seen.items()}, passes_per_graph_max=BW_MAX_RG, upstreams=BW_UP_RG[ck.tier],
+               calls_with_exactly_one_of_two_tensors_requiring_grad_on_fast_cells=n_one, **dict(n_rg))
     ck.section("machine", maximal_histories=sum(n_hist.values()), passes_per_graph_max=BW_MAX, upstreams=BW_UP[ck.tier], **{"histories_" + k: v for k, v in n_hist.items()})
     ck.section("exact", rational_instances=len(insts), **{k: sum(1 for i in insts if i["kind"] == k) for k in ("nat", "tril", "covr")})
     ck.extra["trusted_base"] = ["torch.autograd on plain torch ops (reference gradients)", "float64 finite differences (4th order)", "mpmath (phi/Phi)", "checks/c05_ref.py (documented kernel formulas)",
